@@ -271,6 +271,11 @@ func (f *frame) contractCallEnv(ct *Contract, key string, fn *ssa.Function, extr
 			}
 		}
 	}
+	for _, r := range res {
+		if t, ok := r.(Term); ok {
+			u.assumeLive(f.cur, t)
+		}
+	}
 	post := &SpecEnv{u: u, vars: vars, st: f.cur, old: oldSt, pkg: pkg, bound: map[string]Term{}, ctx: "call " + key}
 	for _, e := range ct.Ensures {
 		t := post.evalBool(e.X)
@@ -740,6 +745,15 @@ func (f *frame) loopHeader(li *loopInfo) {
 				u.assume(Term{fmt.Sprintf("(forall ((q_r Int)) (! (=> (and %s) (= (select %s q_r) (select %s q_r))) :pattern ((select %s q_r))))",
 					strings.Join(excl, " "), nw.S, old.S, nw.S), sBool})
 			}
+		}
+	}
+	for _, ins := range li.header.Instrs {
+		phi, ok := ins.(*ssa.Phi)
+		if !ok {
+			break
+		}
+		if t, ok := f.vals[phi].(Term); ok {
+			u.assumeLive(f.cur, t)
 		}
 	}
 	// 3. assume invariant
